@@ -87,6 +87,10 @@ func (idx *KVIndex) ListFields() []string {
 // AddDoc adds new document to the index
 func (idx *KVIndex) AddDoc(docID string, value map[string]interface{}) error {
 	err := idx.KV.Update(func(tx kvi.KVTransaction) error {
+		//a document that is added again replaces its previous version
+		if err := idx.removeDocTx(tx, docID); err != nil {
+			return err
+		}
 		return idx.AddDocTx(tx, docID, value)
 	})
 	if err != nil {
@@ -177,64 +181,68 @@ func (idx *KVIndex) termGetCount(tx kvi.KVTransaction, field string, ttype TermT
 // RemoveDoc removes a document from the index: TODO
 func (idx *KVIndex) RemoveDoc(docID string) error {
 	err := idx.KV.Update(func(tx kvi.KVTransaction) error {
-		log.WithFields(log.Fields{"document_id": docID}).Debug("KVIndex: deleting document")
-		docKey := DocKey(docID)
-		data, err := tx.Get(docKey)
-		if err != nil {
-			return nil
-		}
-		doc := Doc{}
-		err = proto.Unmarshal(data, &doc)
-		if err != nil {
-			return fmt.Errorf("failed to unmarshal document: %v", err)
-		}
-		for _, entryKey := range doc.Entries {
-			//the entry is already gone when its field was removed in the meantime
-			if _, err := tx.Get(entryKey); err != nil {
-				continue
-			}
-			field, ttype, term, _ := EntryKeyParse(entryKey)
-			termKey := TermKey(field, ttype, term)
-			//count the term while the entry is still there: a recount must include it,
-			//because one is subtracted for it below
-			count, cerr := idx.termGetCount(tx, field, ttype, term)
-
-			err = tx.Delete(entryKey)
-			if err != nil {
-				return fmt.Errorf("failed to delete entry %s: %v", entryKey, err)
-			}
-
-			if cerr == nil {
-				if count > 0 {
-					count = count - 1
-				}
-				//if count == 0, then the term should be removed from the index
-				if count == 0 {
-					err = tx.Delete(termKey)
-					if err != nil {
-						return fmt.Errorf("failed to delete term key %s: %v", termKey, err)
-					}
-				} else {
-					buf := make([]byte, binary.MaxVarintLen64)
-					binary.PutUvarint(buf, count)
-					err = tx.Set(termKey, buf)
-					if err != nil {
-						return fmt.Errorf("failed to set term key %s: %v", termKey, err)
-					}
-				}
-			} else {
-				return fmt.Errorf("Termcount Error: %s", cerr)
-			}
-		}
-
-		err = tx.Delete(docKey)
-		if err != nil {
-			return fmt.Errorf("failed to delete document %s: %v", docKey, err)
-		}
-		return nil
+		return idx.removeDocTx(tx, docID)
 	})
 	if err != nil {
 		return fmt.Errorf("RemoveDoc call failed: %v", err)
+	}
+	return nil
+}
+
+func (idx *KVIndex) removeDocTx(tx kvi.KVTransaction, docID string) error {
+	log.WithFields(log.Fields{"document_id": docID}).Debug("KVIndex: deleting document")
+	docKey := DocKey(docID)
+	data, err := tx.Get(docKey)
+	if err != nil {
+		return nil
+	}
+	doc := Doc{}
+	err = proto.Unmarshal(data, &doc)
+	if err != nil {
+		return fmt.Errorf("failed to unmarshal document: %v", err)
+	}
+	for _, entryKey := range doc.Entries {
+		//the entry is already gone when its field was removed in the meantime
+		if _, err := tx.Get(entryKey); err != nil {
+			continue
+		}
+		field, ttype, term, _ := EntryKeyParse(entryKey)
+		termKey := TermKey(field, ttype, term)
+		//count the term while the entry is still there: a recount must include it,
+		//because one is subtracted for it below
+		count, cerr := idx.termGetCount(tx, field, ttype, term)
+
+		err = tx.Delete(entryKey)
+		if err != nil {
+			return fmt.Errorf("failed to delete entry %s: %v", entryKey, err)
+		}
+
+		if cerr == nil {
+			if count > 0 {
+				count = count - 1
+			}
+			//if count == 0, then the term should be removed from the index
+			if count == 0 {
+				err = tx.Delete(termKey)
+				if err != nil {
+					return fmt.Errorf("failed to delete term key %s: %v", termKey, err)
+				}
+			} else {
+				buf := make([]byte, binary.MaxVarintLen64)
+				binary.PutUvarint(buf, count)
+				err = tx.Set(termKey, buf)
+				if err != nil {
+					return fmt.Errorf("failed to set term key %s: %v", termKey, err)
+				}
+			}
+		} else {
+			return fmt.Errorf("Termcount Error: %s", cerr)
+		}
+	}
+
+	err = tx.Delete(docKey)
+	if err != nil {
+		return fmt.Errorf("failed to delete document %s: %v", docKey, err)
 	}
 	return nil
 }
